@@ -253,3 +253,55 @@ func RefusedBuildLeaksFlags(w *World, a *Admin) bool {
 	}
 	return newKey && w.newIndexViolated(t, a, a.Kind == "ensure")
 }
+
+// AlterDropKeyInsideUnique reports whether the request is an "alter T drop
+// key(K)" where some remaining unique index of T contains K's columns and no
+// remaining key is contained in it (finding
+// C21/alter-drop-key-stale-containskey: meta.setContainsKey only ever sets
+// the ContainsKey flag, so after the drop the unique index is still marked
+// as containing a key and gets no duplicate check until reopen).
+func AlterDropKeyInsideUnique(w *World, a *Admin) bool {
+	if a == nil || a.Kind != "alterdrop" {
+		return false
+	}
+	t := w.Tables[a.Table]
+	if t == nil {
+		return false
+	}
+	dropped := func(ix Index) bool {
+		for _, dx := range a.Idx {
+			if slices.Equal(dx.Cols, ix.Cols) {
+				return true
+			}
+		}
+		return false
+	}
+	covers := func(cols, key []string) bool {
+		for _, k := range key {
+			if !slices.Contains(cols, k) && !slices.Contains(cols, strings.TrimSuffix(k, "_lower!")) {
+				return false
+			}
+		}
+		return true
+	}
+	for _, dk := range t.Idx {
+		if dk.Mode != 'k' || !dropped(dk) {
+			continue
+		}
+		for _, u := range t.Idx {
+			if u.Mode != 'u' || dropped(u) || !covers(u.Cols, dk.Cols) {
+				continue
+			}
+			still := false
+			for _, k := range t.Idx {
+				if k.Mode == 'k' && !dropped(k) && covers(u.Cols, k.Cols) {
+					still = true
+				}
+			}
+			if !still {
+				return true
+			}
+		}
+	}
+	return false
+}
